@@ -246,7 +246,7 @@ def asm_namespace(src, to_bin=None, to_cas=None, to_dsk=None, name=None, append=
                               name=name, append=append, width=100)
 
 
-def run_asm_matrix(run, quick=True, sub_every=0):
+def run_asm_matrix(run, quick=True, sub_every=0, props=("C10", "C11")):
     """{--to_bin, --to_cas, --to_dsk} x {append, no append} x pre-existing target kinds, plus combined switches"""
     rnd = random.Random(run.seed * 131 + 9)
     cells = []
@@ -327,7 +327,7 @@ def run_asm_matrix(run, quick=True, sub_every=0):
                 else:
                     t, f, r = next(oreps), next(oreps), next(oreps)
                     cls[when] = {"tape": t, "fsck": f, "dskread": r, "len": len(content)}
-            check_c10_c11(run, sw, fname, append, tk, lines, argname, before[fname], after[fname], cls, code, out, rep)
+            check_c10_c11(run, sw, fname, append, tk, lines, argname, before[fname], after[fname], cls, code, out, rep, props)
 
 
 def req_args(targets, append, argname):
@@ -355,10 +355,17 @@ def is_image(cls, kind):
     return True      # every byte string is a raw binary
 
 
-def check_c10_c11(run, sw, fname, append, tk, lines, argname, before, after, cls, code, out, model_rep):
+def check_c10_c11(run, sw, fname, append, tk, lines, argname, before, after, cls, code, out, model_rep, props=("C10", "C11")):
     inp = {"lines": lines, "switch": sw, "append": append, "target": tk, "name": argname}
     changed = before != after
     # ---- C10
+    if "C10" not in props:
+        if changed and after is not None and (before is None or (append and is_image(cls["before"], sw))):
+            good = (sw == "to_bin") or (sw == "to_cas" and cls["after"]["tape"]["ok"] and cls["after"]["tape"]["files"]) or \
+                (sw == "to_dsk" and cls["after"]["fsck"]["ok"] and cls["after"]["dskread"]["ok"] and cls["after"]["dskread"]["files"])
+            if good:
+                check_c11(run, inp, sw, lines, argname, after, cls, before)
+        return
     if changed and before is not None and not (append and is_image(cls["before"], sw)):
         known = None
         if tk.startswith("bigcas") and sw == "to_dsk" and append:
